@@ -23,7 +23,7 @@ GROUPS = {
                 "is an unconstrained u64 or unparseable; oracle = RFC 7233 resolver written from C03",
         "harnesses": {"k1_closed": "bytes=1-2", "k1_from": "bytes=1-", "k1_suffix": "bytes=-1", "k1_other_unit": "items=1-2 / bytes=12"},
         "thorough": {"k1_two_ows": "bytes=1-2, \\t-3"},
-        "tags": ["C02", "C03", "C13"],
+        "tags": ["C03", "C02", "C13"],
         "bound": "complete in all numbers and the entity length for each header template; bounded to the listed template shapes (1 spec; 2 specs with OWS in the thorough tier)",
         "functions": [{"fn": "range::parse", "source": "src/range.rs", "engine": "kani"}],
         "trusted": ["#[kani::stub(<u64 as FromStr>::from_str)]: number lexing replaced by an unconstrained Result<u64, _> (kani/k_range.rs)"],
@@ -123,8 +123,12 @@ def run_groups(groups, tier, repo, pid):
         for r in results:
             if r["status"] == "fail":
                 for fcheck in r["failed_checks"]:
+                    # a failing harness assertion is a functional mismatch with the oracle; any other failing check
+                    # (overflow, index, unwrap, ...) inside the crate is a panic: C13 plus the unit's first property
+                    functional = os.path.basename(fcheck["file"]).startswith("k_") and "assertion failed" in fcheck["what"]
+                    ftags = [t for t in cfg["tags"] if t != "C13"] if functional else (["C13"] if "C13" in cfg["tags"] else []) + cfg["tags"][:1]
                     failures.append({"unit": "kani:" + g, "fn": cfg["functions"][0]["fn"], "kind": "kani_check", "engine": "kani", "label": r["harness"],
-                                     "id": "kani:%s::%s::%s" % (g, r["harness"], re.sub(r"\W+", "_", fcheck["what"])[:60]), "tags": list(cfg["tags"]),
+                                     "id": "kani:%s::%s::%s" % (g, r["harness"], re.sub(r"\W+", "_", fcheck["what"])[:60]), "tags": sorted(set(ftags)),
                                      "message": "Kani: %s (%s:%d) on template `%s`" % (fcheck["what"], os.path.basename(fcheck["file"]), fcheck["line"], hs.get(r["harness"], "")),
                                      "at": "%s:%d" % (fcheck["file"], fcheck["line"]), "exit": None, "rendered": r.get("tail", "")})
             elif r["status"] == "inconclusive":
